@@ -148,15 +148,22 @@ def run_rule(run, p, pid):
         layouts = ['ab-%d' % i for i in (1, 22, 333)] + ['x%s' % ('y' * k) for k in (1, 2, 3)] + ['%d.%d' % (i, i * 7) for i in (1, 20, 300)] + \
                   ['Q_%s' % c for c in 'abc'] + ['(%d)' % i for i in (5, 66)] + ['k=%s' % c for c in ('v', 'ww')]
         cases = cases + [('sixteen-layouts', layouts, 'sampled', {'#small-size': True})]
+    if pid == 'C03':
+        # sampling with the smallest sizes: whatever is left unmatched after the sampled attempts is all taken in at the end
+        cases = cases + [('five-layouts', ['ab-1', 'xyy', '3.21', 'Q_a', '(5)'], 'tiny-size', {'#small-size': (1, 1), 'seed': 3}),
+                         ('five-layouts', ['ab-1', 'xyy', '3.21', 'Q_a', '(5)'], 'tiny-size-other-seed', {'#small-size': (1, 1), 'seed': 8}),
+                         ('optional-tail', ['ab12', 'cd'], 'variable-length', {'variableLengthFrags': True}),
+                         ('optional-tail-letters', ['abcc', 'ab', 'zz'], 'variable-length', {'variableLengthFrags': True})]
     run.rule(rid, texts[pid] % len(cases))
     f = p.fn(RX + 'extract')
     n = 0
     for name, examples, oname, opts in cases:
         key = '%s[%s]' % (name, oname)
         if opts.get('#small-size'):
+            da, dae = opts['#small-size'] if isinstance(opts['#small-size'], tuple) else (4, 3)
             try:
                 I0 = _interp(p)
-                size = I0.apply(('#sym', p.mod('tdda.rexpy.rexpy').syms['Size']), [], {'do_all': 4, 'do_all_exceptions': 3})
+                size = I0.apply(('#sym', p.mod('tdda.rexpy.rexpy').syms['Size']), [], {'do_all': da, 'do_all_exceptions': dae})
             except (Unsupported, Raised, KeyError) as e:
                 raise AnalysisError('rexpy.Size is not evaluable: %s' % e)
             opts = dict(opts, size=size)
